@@ -213,9 +213,12 @@ fn main() {
     let configs: Vec<(usize, usize)> = if quick { vec![(2, 3), (3, 2)] } else { vec![(2, 3), (3, 2), (3, 3), (4, 2)] };
     for (t, len) in configs {
         let mut pool = jobs(len);
-        if quick && t >= 3 {
-            // quick tier: three threads draw from the first 9 jobs (osu, taiko x 2 Random seeds, mania convert, gradual walks)
+        // three threads draw from the first 9 jobs (osu, taiko x 2 Random seeds, mania convert, gradual walks), four from 6:
+        // the number of assignments x schedules grows too fast otherwise (T=3x3: 165 x 1680, T=4x2: 126 x 2520)
+        if t == 3 {
             pool.truncate(9);
+        } else if t >= 4 {
+            pool.truncate(6);
         }
         let refs: Vec<Vec<u64>> = pool.iter().map(|j| world.reference(j)).collect();
         let scheds = interleavings(&vec![len; t]);
